@@ -49,6 +49,8 @@ type c20Cfg struct {
 	Cmds   []byte // commands the server supports
 	User   string
 	Pass   string
+	// AuthOnly: only the greeting and RFC 1929 grids are enumerated (no request grid)
+	AuthOnly bool
 }
 
 type c20Verdict struct {
@@ -608,6 +610,52 @@ func c20Grid(cfg *c20Cfg, r *rand.Rand, emit func(m *c20Msg)) {
 				emit(m)
 			}
 		}
+	}
+	// (B') RFC 1929 length sweep: every (ULEN, PLEN) in {0,1,2,127,128,254,255}^2, the
+	// diagonals ULEN = 0..255 with PLEN = 255-ULEN and PLEN = 255, and pairs whose sum is
+	// 254, 256, 257, 509 or 510. UNAME / PASSWD are the configured credentials cut or
+	// padded to that length, so the pair (len(User), len(Pass)) is the accepting one.
+	if c20Has(cfg.Accept, 0x02) {
+		fit := func(s string, n int, pad byte) string {
+			b := append([]byte(s), bytes.Repeat([]byte{pad}, 255)...)
+			return string(b[:n])
+		}
+		seen := map[[2]int]bool{}
+		var pairs [][2]int
+		add := func(u, p int) {
+			if u < 0 || p < 0 || u > 255 || p > 255 || seen[[2]int{u, p}] {
+				return
+			}
+			seen[[2]int{u, p}] = true
+			pairs = append(pairs, [2]int{u, p})
+		}
+		edge := []int{0, 1, 2, 127, 128, 254, 255}
+		for _, u := range edge {
+			for _, p := range edge {
+				add(u, p)
+			}
+		}
+		for u := 0; u <= 255; u++ {
+			add(u, 255-u)
+			add(u, 255)
+		}
+		for _, sum := range []int{254, 256, 257, 509, 510} {
+			for _, u := range append(edge, 3, 64, 126, 129, 253) {
+				add(u, sum-u)
+				add(sum-u, u)
+			}
+		}
+		add(len(cfg.User), len(cfg.Pass))
+		for _, up := range pairs {
+			m := &c20Msg{Class: fmt.Sprintf("auth-len|ulen=%d|plen=%d", up[0], up[1])}
+			m.greeting(0x05, 1, []byte{0x02})
+			m.auth(0x01, fit(cfg.User, up[0], 'U'), fit(cfg.Pass, up[1], 'P'))
+			m.request(r, 5, 1, 0, 1, 0, 8080, true)
+			emit(m)
+		}
+	}
+	if cfg.AuthOnly {
+		return
 	}
 	// (C) request grid behind a well-formed negotiation
 	for _, ver := range c20Vers {
